@@ -60,6 +60,8 @@ Definition qname_py_guard (local : str) : bool :=
   | [] => true
   | c :: r => py_covers_start c && forallb py_covers_char r
   end.
+Definition qname_sp_py_guard (q : qname_sp) : bool :=
+  qname_py_guard (q_local q) && match q_prefix q with None => true | Some p => qname_py_guard p end.
 
 (* ---- reading a text with the specification's own grammar ------------------------
    (the reading is always re-printed and compared with the text, so these
